@@ -309,7 +309,7 @@ def run(ctx, job):
                 names_ = O.names_of(rows)
                 A, b = O.matrix_of(rows, names_)
                 if rep.startswith("machine"):
-                    ctx.obligation("refused-only-if-unsatisfiable", lp.feasible_formula(A, b))
+                    ctx.obligation("refused-only-if-unsatisfiable", lp.feasibility_claims(ctx.mode, A, b)[0])
                 return {"cls": cls}
             ctx.expect("round-trip-does-not-raise", False, info=cls + "@" + B.innermost_pacti_frame(e))
             return {"cls": cls}
